@@ -3,6 +3,7 @@ import glob
 import json
 import os
 from . import common as C
+from . import corpora
 from . import tracecheck as T
 from . import multijudge as J
 
@@ -56,6 +57,9 @@ def run(pid, tier, seed, replay):
                     for cf in corpus:
                         f.write(open(cf).read() + "\n")
                 batches.append(("corpus", dict(script=script)))
+            gscript = os.path.join(d, "directed.script")
+            if corpora.write_for(pid, tier, gscript):
+                batches.append(("directed", dict(script=gscript)))
             k = 20 if tier == "thorough" else 1
             batches.append(("multi", dict(profile="multi", cases=60 * k, length=45, backend="mem", seed=seed * 1000 + 21)))
             batches.append(("multip", dict(profile="multi", cases=10 * k, length=45, backend="peb", seed=seed * 1000 + 22)))
